@@ -107,3 +107,30 @@ func (app *App) VerifTwinPull(height int64) (string, error) {
 	}
 	return amt.String(), nil
 }
+
+// VerifRunningPull returns the block reward this node itself pulls for the
+// given height, through its own long-lived cumulative store and calculator
+// (with whatever they have cached). Called right before BeginBlock of that
+// height it computes, and caches, exactly what BeginBlock computes next.
+//
+// Verification-only: compiled with the "verif" build tag, never in production.
+func (app *App) VerifRunningPull(height int64) (string, error) {
+	ctx := app.Context
+	curr, ok := ctx.currencies.GetCurrencyById(0)
+	if !ok {
+		return "", errors.New("no currency 0")
+	}
+	poolList, err := ctx.govern.GetPoolList()
+	if err != nil {
+		return "", err
+	}
+	pool, err := ctx.balances.WithState(ctx.deliver).GetBalanceForCurr(poolList["RewardsPool"], &curr)
+	if err != nil {
+		return "", err
+	}
+	amt, err := ctx.rewardMaster.WithState(ctx.deliver).RewardCm.PullRewards(height, pool.Amount)
+	if err != nil {
+		return "", err
+	}
+	return amt.String(), nil
+}
